@@ -1,5 +1,6 @@
 import SJ.Props.C01Iff
 import SJ.Proofs.RangeLit
+import SJ.Proofs.RangeClamp
 /-!
 # C01 — the number-range clause, stated with the specification
 
@@ -127,6 +128,21 @@ theorem c01_default_accepts_infinite :
 example :
     (parseTop ⟨{ fr := true }, .slice, .value⟩ litBelowMax.bytes).isOk (.num (.float 0x7fefffffffffffff)) = true ∧
     (parseTop ⟨{ fr := true }, .slice, .value⟩ litAbove2p1024.bytes).isErr .NumberOutOfRange 22 = true := by
+  refine ⟨by decide +kernel, by decide +kernel⟩
+
+/-- **the driver's range oracle is the specification.** `Spec.Range.finiteRangeB` — what `sjdriver` evaluates on the
+    recognised tree of every generated input: `roundNE64` of each literal's exact value, the written exponent clamped to
+    `1200 + number of digits` so that `1e99999999999` is never expanded — decides `finiteRange` on every tree with
+    grammatical literals (in particular on every tree of a JSON text). -/
+theorem c01_range_oracle (t : CST) (hwf : allNums (fun p => p.WF = true) t) :
+    Spec.Range.finiteRangeB t = true ↔ finiteRange t :=
+  SJ.Proofs.RangeClamp.finiteRangeB_iff t hwf
+
+/-- `[1e99999999999]` is judged (not finite) without expanding the power; `[1e-99999999999, 0e99999999999]` is finite -/
+example :
+    Spec.Range.finiteRangeB (.arr [.num ⟨false, [0x31], [], [0x65,0x39,0x39,0x39,0x39,0x39,0x39,0x39,0x39,0x39,0x39,0x39]⟩]) = false ∧
+    Spec.Range.finiteRangeB (.arr [.num ⟨false, [0x31], [], [0x65,0x2d,0x39,0x39,0x39,0x39,0x39,0x39,0x39,0x39,0x39,0x39,0x39]⟩,
+      .num ⟨false, [0x30], [], [0x65,0x39,0x39,0x39,0x39,0x39,0x39,0x39,0x39,0x39,0x39,0x39]⟩]) = true := by
   refine ⟨by decide +kernel, by decide +kernel⟩
 
 end SJ.Props.C01Range
